@@ -104,6 +104,7 @@ func runC12(c *Ctx) {
 			c12ListenErrors(c, scheme)
 			c12DialErrors(c, scheme)
 			c12WrongProtoPeer(c, scheme)
+			c12FailedListenerClosed(c, scheme)
 		}
 		for _, scheme := range []string{"tcp", "ipc", "tls+tcp", "ws"} {
 			c12BadPeers(c, scheme)
@@ -194,6 +195,49 @@ func c12ListenErrors(c *Ctx, scheme string) {
 		}
 		return l.Listen()
 	})
+}
+
+// a Listen that failed with address-in-use leaves the listener that owns the address alone — also when the failed
+// listener, or its socket, is closed afterwards
+func c12FailedListenerClosed(c *Ctx, scheme string) {
+	for _, how := range []string{"listener", "socket"} {
+		c12seq++
+		r := &c12run{c: c, cas: scheme + " Listen: address in use, then the failed " + how + " is closed"}
+		a, _ := pair.NewSocket()
+		b, _ := pair.NewSocket()
+		la, err := a.NewListener(c12addr(scheme, c12seq), lopts(scheme))
+		if err != nil || la.Listen() != nil {
+			_ = a.Close()
+			_ = b.Close()
+			return
+		}
+		addr := la.Address()
+		lb, err := b.NewListener(addr, lopts(scheme))
+		if err == nil {
+			e := lb.Listen()
+			r.hist = append(r.hist, "second socket Listen on "+addr+" -> "+vp.ErrName(e))
+			if how == "listener" {
+				r.follow("the failed listener's Close", "any", func() error { return lb.Close() })
+			}
+		}
+		r.follow("the failed socket's Close", "ok", func() error { return b.Close() })
+		r.follow("a peer dials the listener that owns the address and talks", "ok", func() error {
+			p, _ := pair.NewSocket()
+			defer p.Close()
+			_ = p.SetOption(mangos.OptionSendDeadline, time.Second)
+			_ = a.SetOption(mangos.OptionRecvDeadline, time.Second)
+			if e := p.DialOptions(addr, dopts(scheme)); e != nil {
+				return e
+			}
+			time.Sleep(30 * time.Millisecond)
+			if e := p.Send([]byte("hello")); e != nil {
+				return e
+			}
+			_, e := a.Recv()
+			return e
+		})
+		_ = a.Close()
+	}
 }
 
 // refused, then a listener appears: the same dialer object can be retried
@@ -502,6 +546,82 @@ func c12CallErrors(c *Ctx) {
 			}
 			if _, e := p.Recv(); e != nil {
 				return e
+			}
+			if e := p.Send([]byte("pong")); e != nil {
+				return e
+			}
+			_, e := q.Recv()
+			return e
+		})
+		_ = q.Close()
+		_ = p.Close()
+	}
+	// a REQ call that failed because another call took its place (cancelled by a newer Send, timed out) leaves the
+	// context usable: the next request gets its reply
+	for _, kind := range []string{"Recv cancelled by a newer Send", "Recv timed out", "Send timed out (no peer)"} {
+		c12seq++
+		r := &c12run{c: c, cas: "REQ: " + kind}
+		q, _ := req.NewSocket()
+		p, _ := rep.NewSocket()
+		addr := c12addr("inproc", c12seq)
+		_ = p.Listen(addr)
+		_ = p.SetOption(mangos.OptionRecvDeadline, time.Second)
+		switch kind {
+		case "Recv cancelled by a newer Send":
+			_ = q.Dial(addr)
+			time.Sleep(20 * time.Millisecond)
+			_ = q.SetOption(mangos.OptionRecvDeadline, 2*time.Second)
+			_ = q.Send([]byte("first"))
+			res := make(chan error, 1)
+			go func() { _, e := q.Recv(); res <- e }()
+			time.Sleep(30 * time.Millisecond)
+			e2 := q.Send([]byte("second"))
+			var e1 error
+			select {
+			case e1 = <-res:
+			case <-time.After(3 * time.Second):
+				e1 = fmt.Errorf("hang")
+			}
+			r.hist = append(r.hist, "Send first; Recv (blocks); Send second -> "+vp.ErrName(e2)+"; the blocked Recv -> "+vp.ErrName(e1))
+			// drain what the server has got so far
+			for i := 0; i < 2; i++ {
+				if _, e := p.Recv(); e == nil {
+					_ = p.Send([]byte("pong"))
+				}
+			}
+			r.follow("Recv of the reply to the second request", "ok", func() error { _, e := q.Recv(); return e })
+		case "Recv timed out":
+			_ = q.Dial(addr)
+			time.Sleep(20 * time.Millisecond)
+			_ = q.SetOption(mangos.OptionRecvDeadline, 30*time.Millisecond)
+			_ = q.Send([]byte("unanswered"))
+			_, e1 := q.Recv()
+			r.hist = append(r.hist, "Send; Recv with a 30 ms deadline, server silent -> "+vp.ErrName(e1))
+			if _, e := p.Recv(); e == nil {
+				_ = p.Send([]byte("late"))
+			}
+		default:
+			_ = q.SetOption(mangos.OptionSendDeadline, 30*time.Millisecond)
+			e1 := q.Send([]byte("nobody"))
+			r.hist = append(r.hist, "Send with a 30 ms deadline and no peer -> "+vp.ErrName(e1))
+			_ = q.Dial(addr)
+			time.Sleep(20 * time.Millisecond)
+		}
+		r.follow("a fresh request / reply round trip on the same socket", "ok", func() error {
+			_ = q.SetOption(mangos.OptionRecvDeadline, time.Second)
+			_ = q.SetOption(mangos.OptionSendDeadline, time.Second)
+			if e := q.Send([]byte("ping")); e != nil {
+				return e
+			}
+			for {
+				m, e := p.Recv()
+				if e != nil {
+					return e
+				}
+				if string(m) == "ping" {
+					break
+				}
+				_ = p.Send([]byte("stale"))
 			}
 			if e := p.Send([]byte("pong")); e != nil {
 				return e
